@@ -8,7 +8,7 @@
    harness (Python ==/hash classes).  Circuits are instruction lists over qubit / clbit indices. *)
 From CKT Require Import Common.Base Common.Circ Model.Observables.
 
-Definition label := option nat.
+Notation label := (option nat) (only parsing).
 Definition label_beq : label -> label -> bool := option_beq Nat.eqb.
 Definition memb (x : nat) (l : list nat) : bool := existsb (Nat.eqb x) l.
 
